@@ -25,9 +25,12 @@ COMPLETION = {"response", "error", "websocket_end", "tcp_end", "tcp_error", "udp
 STARTS = set(START.values())
 HOOKS_OF = {"http": ["request", "response", "error", "websocket_end"], "tcp": ["tcp_start", "tcp_end", "tcp_error"],
             "udp": ["udp_start", "udp_end", "udp_error"], "dns": ["dns_request", "dns_response", "dns_error"]}
-PATS = {0: "a", 1: "sub/b", 2: "r%M", 3: "dir"}     # pattern id -> path pattern (3 is a directory: cannot be opened)
+PATS = {0: "a", 1: "sub/b", 2: "r%M", 3: "dir", 4: "d%H/x%M", 5: "h%H"}     # pattern id -> path pattern (3 is a directory: cannot be opened)
 ATOMS = {"all": "~all", "http": "~http", "tcp": "~tcp", "udp": "~udp", "dns": "~dns", "ws": "~websocket",
-         "resp": "~s", "err": "~e", "marked": "~marked"}
+         "resp": "~s", "err": "~e", "marked": "~marked",
+         "noresp": "~q", "replay": "~replay", "post": "~m POST", "c200": "~c 200", "c404": "~c 404"}
+FILES = {"a": 0, "sub/b": 1, "r0": 10, "r1": 11, "r3": 13, "h0": 300, "h2": 302, "h3": 303}
+FILES.update({"d%d/x%d" % (h, m): 200 + 4 * h + m for h in range(4) for m in range(4)})
 
 
 import pathlib
@@ -45,7 +48,7 @@ class _FakeNow:
     @classmethod
     def today(cls): return cls
     @classmethod
-    def strftime(cls, fmt): return fmt.replace("%M", str(cls.now))
+    def strftime(cls, fmt): return fmt.replace("%M", str(cls.now % 4)).replace("%H", str((cls.now // 4) % 4))
 
 
 def flt_str(pol):
@@ -77,13 +80,13 @@ _parse = flowfilter.parse
 
 def _pool():
     atoms = sorted(ATOMS)
-    out = [[a] for a in atoms] + [["not", a] for a in ("err", "resp", "ws", "marked", "http")]
+    out = [[a] for a in atoms] + [["not", a] for a in ("err", "resp", "ws", "marked", "http", "replay", "c200")]
     x = 12345
     def nxt(n):
         nonlocal x
         x = (x * 1103515245 + 12345) % (1 << 31); return (x >> 8) % n
-    for _ in range(12):
-        a, b, c = atoms[nxt(9)], atoms[nxt(9)], atoms[nxt(9)]
+    for _ in range(14):
+        a, b, c = atoms[nxt(14)], atoms[nxt(14)], atoms[nxt(14)]
         k = nxt(5)
         out.append([["and", a, b], ["or", a, b], ["and", a, "not", b], ["or", "not", a, "and", b, c], ["not", "or", a, b]][k])
     return out
@@ -93,7 +96,10 @@ def code_of(f):
     typ = 0 if isinstance(f, http.HTTPFlow) else 1 if isinstance(f, tcp.TCPFlow) else 2 if isinstance(f, udp.UDPFlow) else 3
     resp = 1 if getattr(f, "response", None) else 0
     ws = 1 if getattr(f, "websocket", None) is not None else 0
-    return typ + 4 * resp + 8 * (1 if f.error else 0) + 16 * ws + 32 * (1 if f.marked else 0) + 64 * int(f.comment or "0")
+    post = 1 if typ == 0 and f.request.method == "POST" else 0
+    s404 = 1 if typ == 0 and f.response and f.response.status_code == 404 else 0
+    return (typ + 4 * resp + 8 * (1 if f.error else 0) + 16 * ws + 32 * (1 if f.marked else 0)
+            + 64 * (1 if f.is_replay is not None else 0) + 128 * post + 256 * s404 + 512 * int(f.comment or "0"))
 
 
 def make(t):
@@ -114,6 +120,11 @@ def apply_edit(f, what):
     elif what == "ws":
         if isinstance(f, http.HTTPFlow): f.websocket = websocket.WebSocketData()
     elif what == "mark": f.marked = "" if f.marked else ":x:"
+    elif what == "replay": f.is_replay = None if f.is_replay else "request"
+    elif what == "post":
+        if isinstance(f, http.HTTPFlow): f.request.method = "GET" if f.request.method == "POST" else "POST"
+    elif what == "s404":
+        if isinstance(f, http.HTTPFlow) and f.response: f.response.status_code = 404 if f.response.status_code == 200 else 200
     elif what == "ver":
         if hasattr(f, "messages"): f.messages.append(type(f.messages[0])(True, b"more", 946681209.0) if f.messages else tcp.TCPMessage(True, b"m"))
     f.comment = str(int(f.comment) + 1)
@@ -187,7 +198,7 @@ class Check(PropertyCheck):
             x = rng.randint(0, 99)
             if x < 12: return "none"
             if x < 20: return ("a" if rng.chance(0.5) else "w") + "3"
-            return ("a" if rng.chance(0.45) else "w") + str(rng.pick([0, 0, 1, 2, 2]))
+            return ("a" if rng.chance(0.45) else "w") + str(rng.pick([0, 0, 1, 2, 2, 4, 4, 5]))
         def rfilt():
             x = rng.randint(0, 99)
             if x < 15: return "unset"
@@ -205,9 +216,14 @@ class Check(PropertyCheck):
         def edit(w): ev.append(["edit", i, w])
         if rng.chance(0.9): hook(START["http" if t == "http" else t])
         if rng.chance(0.3): edit("mark")
+        if rng.chance(0.15): edit("replay")
+        if t == "http" and rng.chance(0.25): edit("post")
         if t == "http":
             r = rng.randint(0, 99)
-            if r < 35: edit("resp"); hook("response")
+            if r < 35:
+                edit("resp")
+                if rng.chance(0.4): edit("s404")
+                hook("response")
             elif r < 50: edit("err"); hook("error")
             elif r < 62: edit("resp"); hook("response"); edit("err"); hook("error")
             elif r < 90:
@@ -236,22 +252,22 @@ class Check(PropertyCheck):
             for _ in range(rng.randint(4, 30)):
                 i = rng.randint(0, n - 1); r = rng.randint(0, 99)
                 if r < 55: evs.append(["hook", rng.pick(HOOKS_OF[types[i]]), i])
-                elif r < 75: evs.append(["edit", i, rng.pick(["resp", "err", "noerr", "ws", "mark", "ver"])])
+                elif r < 75: evs.append(["edit", i, rng.pick(["resp", "err", "noerr", "ws", "mark", "ver", "replay", "post", "s404"])])
                 elif r < 90: evs.append(self._rand_update(rng))
-                elif r < 96: evs.append(["tick", rng.randint(0, 3)])
+                elif r < 96: evs.append(["tick", rng.randint(0, 15)])
                 else: evs.append(["done"])
             return {"types": types, "events": evs}
         lives = [self._lifecycle(rng, i, t) for i, t in enumerate(types)]
         evs = []
         if rng.chance(0.85):
-            evs.append(["update", ("a" if rng.chance(0.3) else "w") + str(rng.pick([0, 0, 1, 2])),
+            evs.append(["update", ("a" if rng.chance(0.3) else "w") + str(rng.pick([0, 0, 1, 2, 4, 5])),
                         "_" if rng.chance(0.5) else ",".join(self._rand_filter(rng))])
         while any(lives):
             r = rng.randint(0, 99)
             if r < 72:
                 l = rng.pick([x for x in lives if x]); evs.append(l.pop(0))
             elif r < 88: evs.append(self._rand_update(rng))
-            elif r < 95: evs.append(["tick", rng.randint(0, 3)])
+            elif r < 95: evs.append(["tick", rng.randint(0, 3) if rng.chance(0.5) else rng.randint(0, 15)])
             elif r < 97: evs.append(["done"])
             else:
                 i = rng.randint(0, n - 1); evs.append(["hook", rng.pick(HOOKS_OF[types[i]]), i])
@@ -292,16 +308,16 @@ class Check(PropertyCheck):
             root = os.path.join(WORK, "c39"); os.makedirs(root, exist_ok=True)
             d = os.path.join(root, "p%d" % pid)
             shutil.rmtree(d, ignore_errors=True)
-            os.makedirs(os.path.join(d, "dir")); os.makedirs(os.path.join(d, "r2")); os.makedirs(os.path.join(d, "sub"))
+            os.makedirs(os.path.join(d, "dir")); os.makedirs(os.path.join(d, "r2")); os.makedirs(os.path.join(d, "sub")); os.makedirs(os.path.join(d, "h1"))
             Check._dir = (pid, d)
         d = Check._dir[1]
-        for name in ("a", "sub/b", "r0", "r1", "r3"):
+        for name in FILES:
             try: os.unlink(os.path.join(d, name))
             except FileNotFoundError: pass
         return self._run_in(case, d)
 
     def _run_in(self, case, d):
-        pathid = {"a": 0, "sub/b": 1, "r0": 10, "r1": 11, "r3": 13}
+        pathid = FILES
         flows = [make(t) for t in case["types"]]
         idx = {f.id: i for i, f in enumerate(flows)}
         save.datetime = _FakeNow; _FakeNow.now = 0; save.Path = _RecPath
